@@ -818,3 +818,6 @@ V('c12-redeclared-no-init', 'C12', 'C12.R7',
   (RESF, "                        new_quals[inh_qname].propagated = False\n                        self._init_qualifier(new_quals[inh_qname],\n                                             qualifier_store)\n", "                        new_quals[inh_qname].propagated = False\n"), 'flavors-not-initialised')
 V('c13-shadow-from-partial', 'C13', 'C13.R5',
   (IWPF, "            assoc_namespaces = self.find_multins_association_ref_namespaces(\n                original_instance, namespace)", "            assoc_namespaces = self.find_multins_association_ref_namespaces(\n                modified_instance, namespace)"), 'decision-object-differs')
+
+V('c19-stats-not-reentrant', 'C19', 'C19.R9',
+  ('pywbem/_statistics.py', "        if any(op_stat is not None and op_stat.name == name\n               for op_stat in self._cm_stack):\n", "        if False:\n"), 'timer-reentered')
